@@ -82,7 +82,11 @@ Definition check_C01 (c : c01_case) : bool :=
       match build p1 p2 n_ tf_ with
       | Err _ => false
       | OK m =>
-          if exact then
+          (* `p in region` for a point of the wrong length is numpy broadcasting, not specified by
+             the property: only the rejection by point2index is compared there *)
+          if negb (length p =? ndim (reg m))%nat then
+            match obs with None => true | Some _ => false end
+          else if exact then
             Bool.eqb (contains_pt (reg m) p) obs_in &&
             opt_eqb zlist_eqb (res2opt (point2index m p)) obs
           else
